@@ -8,6 +8,7 @@ import rvgen
 import impl as implmod
 
 PROP = "C02"
+CONSTS = ['ops', 'ctl', 'mem']          # constant tables of the models this property depends on
 RULE = ("generated programs from a hazard-complete alphabet over a six-register pool (RAW/WAW at distance 1,2,3 constantly), "
         "loads/stores, forward/backward branches, JAL/JALR incl. rd=rs1 and wrap-around targets, ecalls of every code with "
         "younger instructions behind exits, faulting accesses and invalid ecall codes; with and without data/instruction "
